@@ -205,7 +205,7 @@ def ob_route(has_h1: bool, h1_s1: bool, h1_s2: bool, has_h2: bool, h2_s1: bool, 
     pre: _layout_ok(has_h1, h1_s1, h1_s2, has_h2, h2_s1, h2_s2)
     pre: 1 <= m <= 2 and 1 <= m_other <= 2 and 0 <= fs <= 3 and 0 <= rc_owner <= RC_MAX and 0 <= rc_other <= 1 and 0 <= att <= 1
     pre: (fs != 2 or has_h1) and (fs != 3 or has_hw)
-    pre: FULL or (m_other == 1 and rc_other == 0 and att == 0)
+    pre: FULL or (m_other == 1 and att == 0)
     post: _
     """
     has_h1, h1_s1, h1_s2, has_h2, h2_s1, h2_s2, has_hw, pol = (
